@@ -311,6 +311,50 @@ def predictFitLoop (common : Inp) (vram : Nat) : List (Lib × List Gpu) → Bool
 def predictFit (common : Inp) (groups : List (Lib × List Gpu)) : Bool × Nat :=
   predictFitLoop common 0 groups
 
+/-! ### `GpuInfoList.ByLibrary` (discover/types.go) and `llmServer.EstimatedVRAMByGPU` -/
+
+/-- one entry of the scheduler's GPU list as `ByLibrary`/`PredictServerFit` see it:
+    `key` = class of `Library[_Variant]`, `idk` = class of the GPU ID -/
+structure FGpu where
+  key : Nat
+  idk : Nat
+  lib : Lib
+  gpu : Gpu
+  deriving Repr
+
+structure Group where
+  key : Nat
+  members : List FGpu
+  deriving Repr
+
+/-- append to the group with the same key, or open a new group at the end -/
+def insertGroup (x : FGpu) : List Group → List Group
+  | [] => [⟨x.key, [x]⟩]
+  | grp :: rest =>
+    if grp.key == x.key then ⟨grp.key, grp.members ++ [x]⟩ :: rest
+    else grp :: insertGroup x rest
+
+def byLibrary (l : List FGpu) : List Group := l.foldl (fun acc x => insertGroup x acc) []
+
+/-- the library the estimator sees for a group: `gpus[0].Library` -/
+def Group.lib (g : Group) : Lib :=
+  match g.members with
+  | [] => Lib.other
+  | x :: _ => x.lib
+
+def Group.gpus (g : Group) : List Gpu := g.members.map (·.gpu)
+
+/-- `PredictServerFit` on the whole list -/
+def predictFitAll (common : Inp) (all : List FGpu) : Bool × Nat :=
+  predictFit common ((byLibrary all).map fun g => (g.lib, g.gpus))
+
+/-- `llmServer.EstimatedVRAMByGPU`: the size planned on the first GPU of the runner's list with
+    that ID whose index is still inside `GPUSizes`; 0 otherwise -/
+def vramByGPU : (ids : List Nat) → (sizes : List Nat) → (id : Nat) → Nat
+  | [], _, _ => 0
+  | _ :: _, [], _ => 0
+  | i :: is, s :: ss, id => if i == id then s else vramByGPU is ss id
+
 /-! ### scheduler side: `Scheduler.updateFreeSpace` (server/sched.go)
 
 Before the estimator runs for a further model, the scheduler reconciles the free memory the
